@@ -43,6 +43,10 @@ def denote1 (lp : Nat → Option Nat) : Insn → DInsn → Bool
   | .jsr t, .jsr a => lands lp t a
   | .tableswitch d lo hi tb, .tableswitch a lo' hi' os => lands lp d a && lo == lo' && hi == hi' && landsAll lp tb os
   | .lookupswitch d ps, .lookupswitch a ps' => lands lp d a && landsPairs lp ps ps'
+  | .cp op i, .cp op' i' => op == op' && i == i'
+  | .invokeinterface i desc, .invokeinterface i' c' => i == i' && (match argsSize desc with | .ok c => c == c' | _ => false)
+  | .newarray t, .newarray t' => t == t'
+  | .multianewarray i d, .multianewarray i' d' => i == i' && d == d'
   | _, _ => false
 
 /-- the decoded items, starting with the one for instruction number `k`, denote the instructions `is`;
@@ -88,5 +92,9 @@ def wt : Insn → Bool
   | .tableswitch _ lo hi _ =>
     decide (-2147483648 ≤ lo) && decide (lo ≤ 2147483647) && decide (-2147483648 ≤ hi) && decide (hi ≤ 2147483647)
   | .lookupswitch _ ps => ps.all (fun kp => decide (-2147483648 ≤ kp.1) && decide (kp.1 ≤ 2147483647))
+  | .cp op idx => isCp op && decide (idx ≤ 65535)
+  | .invokeinterface idx _ => decide (idx ≤ 65535)
+  | .newarray t => decide (t ≤ 255)
+  | .multianewarray idx d => decide (idx ≤ 65535) && decide (d ≤ 255)
 
 end CodeDenote
